@@ -387,6 +387,13 @@ def case_arith(col, p):
         col.violation('C09:arith:data', p, {'got': gd, 'exp': exd})
     if not inplace and not (np.array_equal(np.asarray(a.data), a_data0) and np.array_equal(np.ma.getmaskarray(a), a_mask0)):
         col.violation('C09:arith:operand_modified', p, '')
+    if not inplace:
+        # the result is a spectrum of its own: masking one of its entries afterwards leaves the operand as it was
+        free = [i for i in range(res.size) if not gm.flat[i]]
+        if free:
+            res.mask.flat[free[-1]] = True
+            if not np.array_equal(np.ma.getmaskarray(a), a_mask0):
+                col.violation('C09:arith:result_shares_mask_with_operand', p, {'entry_masked_in_result': free[-1]})
     col.distinct('nontrivial', ('arith', opname, okind, self_folded, refl, self_labelled))
 
 
@@ -478,7 +485,30 @@ def case_slice_ll(col, p):
     col.distinct('nontrivial', ('slice_ll', ns))
 
 
-CASES = {'fold_basis': case_fold_basis, 'bfs': case_bfs, 'misid': case_misid, 'arith': case_arith, 'slice_ll': case_slice_ll}
+def case_fold_large(col, p):
+    """sample sizes beyond 255 chromosomes in one population: folding, unfolding and their masks against the exact reference"""
+    import dadi
+    ns = tuple(p['ns'])
+    shape = tuple(n + 1 for n in ns)
+    dense = (3.0 + (np.arange(int(np.prod(shape))) * 5 % 13).reshape(shape)) / 8.0
+    mask = np.zeros(shape, bool)
+    mask.flat[0] = mask.flat[-1] = True
+    mask.flat[int(np.prod(shape)) // 3] = True
+    fs = dadi.Spectrum(dense.copy(), mask=mask.copy(), mask_corners=False)
+    f = fs.fold()
+    rd, rm = RS.fold(RS.fr_array(dense), mask)
+    _cmp(col, 'C09:fold_masked', dict(p), f, rd, rm, True, data_everywhere=True)
+    u = f.unfold()
+    ud, um = RS.unfold(rd, rm)
+    _cmp(col, 'C09:unfold_masked', dict(p), u, ud, um, False)
+    ff = u.fold()
+    col.tick(transitions=3, states=1, traces=1)
+    if not (np.allclose(np.asarray(ff.data), np.asarray(f.data), rtol=0, atol=1e-13) and np.array_equal(np.ma.getmaskarray(ff), np.ma.getmaskarray(f))):
+        col.violation('C09:fold_unfold_fold', dict(p), '')
+    col.distinct('nontrivial', ('fold_large', ns))
+
+
+CASES = {'fold_large': case_fold_large, 'fold_basis': case_fold_basis, 'bfs': case_bfs, 'misid': case_misid, 'arith': case_arith, 'slice_ll': case_slice_ll}
 
 
 def _dispatch(col, case):
@@ -505,6 +535,8 @@ def run(ctx):
                 cases.append({'kind': 'fold_basis', 'ns': ns, 'pairs': False, 'units': (lo, min(npts, lo + 96))})
         else:
             cases.append({'kind': 'fold_basis', 'ns': ns, 'pairs': npts <= (40 if ctx.quick else 130)})
+    for ns_l in ((300,), (301,), (256, 3), (2, 260), (255, 255)):
+        cases.append({'kind': 'fold_large', 'ns': ns_l})
     if ctx.quick:
         ctx.note('quick: 4-D/5-D shapes restricted to non-decreasing sample-size tuples; thorough: all of {1,2,3}^d')
     for ns, masked in [((3,), []), ((4,), [(1,)]), ((5,), [(2,)]), ((2, 3), [(1, 1)]), ((2, 2), [(0, 2)]), ((3, 3), [(1, 2), (3, 0)]),
